@@ -519,8 +519,8 @@ func TestC11(t *testing.T) {
 					}
 					note("stream-read", last)
 				case act == 6 && kind == "Encoder" && !noNames && rapid.IntRange(0, 2).Draw(rt, "renameClass") == 0:
-					// a class the encoder may have written already gets another wire name (a new version of the peer's
-					// class): from now on it travels under that name, as it would from a new encoder with this map
+					// every class the encoder may have written already gets another wire name (new versions of the peer's
+					// classes): from now on it travels under that name, as it would from a new encoder with this map
 					for _, k := range sortedNames(instNM) {
 						if t, ok := tm[instNM[k]]; ok && t.Kind() == reflect.Struct && !strings.HasSuffix(instNM[k], ".v2") {
 							v2 := instNM[k] + ".v2"
@@ -531,10 +531,9 @@ func TestC11(t *testing.T) {
 							} else {
 								nmBefore[k] = v2
 							}
-							break
 						}
 					}
-					note("rename-class", -1)
+					note("rename-classes", -1)
 				case act == 6 && (len(pendingNames) > 0 || len(pendingTypes) > 0):
 					// register one of the entries held back (the instance's map is the caller's map)
 					if kind == "Encoder" {
